@@ -317,7 +317,7 @@ def assigned_decls(fn):
 def branch_fact(fn, cfg, bid, frozen_ok):
     """(decl id, truth on succ[0]) if the block ends in an `if` over a plain (negated) bool variable that is never assigned"""
     b = cfg.blocks[bid]
-    if b.get("term") != "IfStmt" or b.get("cond") is None or len(b.get("succ", [])) != 2:
+    if b.get("term") not in ("IfStmt", "BinaryOperator", "ConditionalOperator") or b.get("cond") is None or len(b.get("succ", [])) != 2:
         return None
     c = fn.by_id(b["cond"])
     truth = True
